@@ -31,6 +31,12 @@ impl Tier {
     }
 }
 
+/// where evidence/ and replays/ are written: /verif, or VERIF_OUT_DIR for
+/// trial runs against seeded defects (so committed evidence is never clobbered)
+pub fn out_dir() -> PathBuf {
+    std::env::var_os("VERIF_OUT_DIR").map(PathBuf::from).unwrap_or_else(verif_dir)
+}
+
 /// A replayable case: operation name + string arguments as code-point lists
 /// + integer arguments.
 #[derive(Clone, Debug, PartialEq)]
@@ -457,7 +463,7 @@ pub struct Coverage {
 }
 
 fn write_replay(run: &Run, v: &Violation, n: usize) -> PathBuf {
-    let dir = verif_dir().join("replays").join(&run.prop);
+    let dir = out_dir().join("replays").join(&run.prop);
     let _ = fs::create_dir_all(&dir);
     let body = json!({
         "property": run.prop,
@@ -585,7 +591,7 @@ where
         "wall_s": wall,
         "violations": real_count,
     });
-    let evdir = verif_dir().join("evidence");
+    let evdir = out_dir().join("evidence");
     let _ = fs::create_dir_all(&evdir);
     let evp = evdir.join(format!("{}.json", run.prop));
     if machinery_error.is_none() {
